@@ -133,6 +133,16 @@ class MetaUnionRef(type):
                 return True
         return False
 
+    def _as_member(cls, xobj, typeid, buffer):
+        """xobj as an object of its member type living in buffer"""
+        member = cls._reftypes[typeid]
+        if _axis_order(xobj.__class__) != _axis_order(member):
+            # a same-named array class with another axis order: data
+            return member(xobj, _buffer=buffer)
+        if xobj._buffer != buffer:
+            xobj = xobj.__class__(xobj, _buffer=buffer)
+        return xobj
+
     def _typeid_from_type(cls, typ):
         for ii, tt in enumerate(cls._reftypes):
             if tt.__name__ == typ.__name__:
@@ -200,8 +210,7 @@ class MetaUnionRef(type):
                     if xobj is not None:
                         typ = xobj.__class__
                         typeid = cls._typeid_from_type(typ)
-                        if xobj._buffer != buffer:
-                            xobj = typ(xobj, _buffer=buffer)
+                        xobj = cls._as_member(xobj, typeid, buffer)
                 elif len(value) == 2:  # must be (str,dict)
                     tname, data = value
                     typ = cls._type_from_name(tname)
@@ -211,8 +220,7 @@ class MetaUnionRef(type):
                 xobj = value
                 typ = xobj.__class__
                 typeid = cls._typeid_from_type(typ)
-                if xobj._buffer != buffer:
-                    xobj = typ(xobj, _buffer=buffer)
+                xobj = cls._as_member(xobj, typeid, buffer)
             else:
                 raise ValueError(f"{value} not handled")
             if xobj is None:
